@@ -174,8 +174,8 @@ fn projections(cx: &mut Ctx) {
         ("Suite", "{ast::ModModule::lex_starts_at(source,offset)}", "{Ok(ast::ModModule::parse_tokens(lxr,source_path)?.body)}"),
         ("Expr", "{ast::ModExpression::lex_starts_at(source,offset)}", "{Ok(*ast::ModExpression::parse_tokens(lxr,source_path)?.body)}"),
         ("Stmt", "{ast::ModModule::lex_starts_at(source,offset)}", ""),
-        ("Identifier", "{ast::Expr::lex_starts_at(source,offset)}", "{letexpr=ast::Expr::parse_tokens(lxr,source_path)?;matchexpr{ast::Expr::Name(name)=>Ok(name.id),expr=>Err(ParseError{error:ParseErrorType::InvalidToken,offset:expr.range().start(),source_path:source_path.to_owned(),}),}}"),
-        ("Constant", "{ast::Expr::lex_starts_at(source,offset)}", "{letexpr=ast::Expr::parse_tokens(lxr,source_path)?;matchexpr{ast::Expr::Constant(c)=>Ok(c.value),expr=>Err(ParseError{error:ParseErrorType::InvalidToken,offset:expr.range().start(),source_path:source_path.to_owned(),}),}}"),
+        ("Identifier", "{ast::Expr::lex_starts_at(source,offset)}", "{letexpr=ast::Expr::parse_tokens(lxr,source_path)?;matchexpr{ast::Expr::Name(name)=>Ok(name.id),expr=>Err(ParseError{error:ParseErrorType::InvalidToken,offset:expr.range().start(),source_path:source_path.to_owned()})}}"),
+        ("Constant", "{ast::Expr::lex_starts_at(source,offset)}", "{letexpr=ast::Expr::parse_tokens(lxr,source_path)?;matchexpr{ast::Expr::Constant(c)=>Ok(c.value),expr=>Err(ParseError{error:ParseErrorType::InvalidToken,offset:expr.range().start(),source_path:source_path.to_owned()})}}"),
     ];
     for (ty, lex, pt) in want {
         let l = p.methods(ty, "lex_starts_at").first().map(|x| sm::tsc(&x.1.block)).unwrap_or_default();
@@ -250,7 +250,7 @@ fn generated_parse_impls(cx: &mut Ctx) {
             }
         }
         let want_lex = format!("{{ast::{}::lex_starts_at(source,offset)}}", family);
-        let want_pt = format!("{{letnode=ast::{f}::parse_tokens(lxr,source_path)?;matchnode{{ast::{f}::{v}(node)=>Ok(node),node=>Err(ParseError{{error:ParseErrorType::InvalidToken,offset:node.range().start(),source_path:source_path.to_owned(),}}),}}}}", f = family, v = variant);
+        let want_pt = format!("{{letnode=ast::{f}::parse_tokens(lxr,source_path)?;matchnode{{ast::{f}::{v}(node)=>Ok(node),node=>Err(ParseError{{error:ParseErrorType::InvalidToken,offset:node.range().start(),source_path:source_path.to_owned()}})}}}}", f = family, v = variant);
         if lex == want_lex && pt == want_pt {
             cx.ok(rule, &format!("{} <- {}::{}", ty, family, variant));
         } else {
